@@ -1,6 +1,6 @@
 #!/bin/bash
 # run every claimed check's quick (or $1) tier on the current trees; print one line per check
-cd /verif
+cd "$(dirname "$0")/.."
 TIER=${1:-quick}
 for id in $(/venv/bin/python -c "import json; print(' '.join(c['property_id'] for c in json.load(open('MANIFEST.json'))['checks']))"); do
   s=$(date +%s)
